@@ -398,7 +398,7 @@ class Tr:
             if kd == "eref":
                 coq, fk = self.ef_by_cpp[c["n"]]
                 x = self.fresh("e")
-                b = b + ["do %s <- vget \"m_elements[]\" %s %s;" % (x, self.fld("vec", st[0]), t)]
+                b = b + ["do %s <- vget \"%s\" %s %s;" % (x, self.sc.get("elem_label", "m_elements[]"), self.fld("vec", st[0]), t)]
                 if fk == "optliter":
                     y = self.fresh("p")
                     return b + ["do %s <- get_pos %s;" % (y, x)], y, "liter"
@@ -406,6 +406,8 @@ class Tr:
                     return b, "(%s %s)" % (coq, x), "mit"
                 if fk == "optval":
                     return b, "(%s %s)" % (coq, x), "optval"
+                if fk == "nat":
+                    return b, "(%s %s)" % (coq, x), "nat"
             if kd == "emplaced" and c["n"] == "first":
                 return b, t, "mit"
             raise Unsupported("member %s of %s" % (c["n"], kd))
@@ -479,10 +481,19 @@ class Tr:
     def gname(self, m):
         return "g_" + m.replace("/", "_")
 
+    def params(self, m):
+        """[(C++ parameter names, kind)]: one entry per Gallina parameter (a family module may map
+        several C++ parameters, e.g. an iterator pair, to one)"""
+        ps, _, _ = self.methods[m][0]
+        return [((pn,), self.akind(t, True)) for pn, t in ps]
+
+    def bind_param(self, env, names, x, kd):
+        env[names[0]] = (x, kd)
+
     def sig(self, m):
         if m not in self.sigs:
-            ps, rt, _ = self.methods[m][0]
-            pk = [self.akind(t, True) for _, t in ps]
+            rt = self.methods[m][0][1]
+            pk = [kd for _, kd in self.params(m)]
             rk = self.akind(rt)
             if "fillrange" in pk and rk == "unit":
                 rk = "outvec"          # the filled range is the observable result
@@ -494,8 +505,9 @@ class Tr:
         coq, fk = self.ef_by_cpp[cppf]
         x, es, ns = self.fresh("e"), self.fresh("es"), self.fresh("s")
         vec = self.fld("vec", st[0])
-        lines = ["do %s <- vget \"m_elements[]\" %s %s;" % (x, vec, eref),
-                 "do %s <- vset \"m_elements[]\" %s %s (set_%s %s %s);" % (es, vec, eref, coq, x, val),
+        lab = self.sc.get("elem_label", "m_elements[]")
+        lines = ["do %s <- vget \"%s\" %s %s;" % (x, lab, vec, eref),
+                 "do %s <- vset \"%s\" %s %s (set_%s %s %s);" % (es, lab, vec, eref, coq, x, val),
                  "let %s := set_%s %s %s in" % (ns, self.kind_field["vec"], st[0], es)]
         st[0] = ns
         return lines
@@ -767,6 +779,8 @@ class Tr:
                     val = "(Some %s)" % t
                 elif fk == "mit" and kd == "mit":
                     val = t
+                elif fk == "nat" and kd == "nat":
+                    val = t
                 else:
                     raise Unsupported("assignment of %s to element field %s" % (kd, lhs["n"]))
                 return bo + b + self.set_elem_field(to, lhs["n"], val, st)
@@ -792,9 +806,9 @@ class Tr:
         self.cur = m
         pk, rk = self.sig(m)
         env, params = {}, []
-        for (pn, _), kd in zip(ps, pk):
-            x = "p_" + pn
-            env[pn] = (x, kd)
+        for names, kd in self.params(m):
+            x = "p_" + names[0]
+            self.bind_param(env, names, x, kd)
             params.append("(%s : %s)" % (x, self.COQTY[kd]))
         def done(st_, env_):
             if rk == "unit":
@@ -816,6 +830,14 @@ class Tr:
               "res (%s %s * %s)" % (self.sc["state"], self.sc["state_args"], self.COQTY[rk])
         return "Definition %s (s : %s %s) %s : %s :=\n%s." % (self.gname(m), self.sc["state"], self.sc["state_args"], " ".join(params), rty, indent(text))
 
+    def state_prelude(self):
+        """the field setters of the state record (a family module whose state is not a plain record overrides this)"""
+        sc = self.sc
+        fs = [f for f, _, _ in sc["fields"]]
+        return ["Definition set_%s (s : %s %s) x : %s %s := {| %s |}." % (
+                f, sc["state"], sc["state_args"], sc["state"], sc["state_args"],
+                "; ".join("%s := %s" % (g, "x" if g == f else "%s s" % g) for g in fs)) for f in fs]
+
     def translate(self):
         sc = self.sc
         out = ["(* GENERATED by tools/cpp2coq.py from the current source of cappuccino::%s — do not edit *)" % self.cls,
@@ -826,11 +848,7 @@ class Tr:
         if sc.get("clock"):
             # the reading std::chrono::steady_clock::now() returns during the call being translated (one per public call)
             out += ["  Variable clk : Z.", ""]
-        fs = [f for f, _, _ in sc["fields"]]
-        for f in fs:
-            out.append("Definition set_%s (s : %s %s) x : %s %s := {| %s |}." % (
-                f, sc["state"], sc["state_args"], sc["state"], sc["state_args"],
-                "; ".join("%s := %s" % (g, "x" if g == f else "%s s" % g) for g in fs)))
+        out += self.state_prelude()
         efs = [f for f, _, _ in sc["elem_fields"]]
         for f in efs:
             out.append("Definition set_%s (e : %s %s) x : %s %s := {| %s |}." % (
